@@ -256,6 +256,54 @@ def run(ctx):
             sh.add((tuple(miss[:1]), p_.exit))
         ok6 = ((True,), 'throw') in sh and all(x[1] == 'throw' for x in sh if x[0] == (True,)) and any(x[0] == (False,) and x[1] in ('return', 'end') for x in sh)
         ctx.check(ok6, 'R6', '%s: a reference to an unknown job is refused (exception), never skipped' % q, where(g), 'path shapes %s' % sorted(sh, key=repr), key='R6|%s|unknown reference' % q)
+    # ---- R7 the loaders leave no entry activity un-started -----------------------------------------------------------------------------------------
+    ctx.rule('R7', 'loaders: every activity without predecessor is started by the loader (an un-started entry activity is started by nothing: the setters retry start() '
+             'only in state STARTING, release_dependencies only reaches successors) - JSON starts each Exec whose dependencies are solved with no further condition, '
+             'DAX starts its root task on every path', 2)
+    for f in jl[:1]:
+        v = A.view(f)
+        nst = 0
+        for eid in range(len(f['elems'])):
+            for e in v.events_of(eid):
+                if not (e.kind == 'call' and e.q.endswith('Activity::start') and e.eid == eid and e.obj is not None):
+                    continue
+                nst += 1
+                IN, tgt, _ = _dominating_facts(A, f, f['elems'][eid]['x'], with_lines=True, with_preds=True)
+                extra = []
+                solved = False
+                for a, t_, l_ in IN.get(tgt, ()):
+                    r = repr(a)
+                    if '__begin' in r and '__end' in r:
+                        continue                                   # loop conditions
+                    if not any(x[0] in ('var', 'field', 'call', 'this') for x in ex.subterms(a)):
+                        continue                                   # constant tests of the log macros
+                    if a[0] == 'truthy' and a[1][0] in ('cast', 'conv') and ex.mentions(a[1], e.obj):
+                        continue                                   # kind test (dynamic_cast)
+                    if a[0] == 'truthy' and a[1] == e.obj or (a[0] == 'bin' and a[1] in ('==', '!=') and ('null',) in (a[2], a[3])):
+                        continue                                   # null test
+                    if a[0] == 'truthy' and a[1][0] == 'call' and a[1][1].endswith('::dependencies_solved') and a[1][2] == e.obj and t_:
+                        solved = True
+                        continue
+                    extra.append((l_, '%s%s' % ('' if t_ else '!', ex.pretty(a))))
+                ctx.check(solved and not extra, 'R7', 'create_DAG_from_json: the final pass starts every Exec whose dependencies are solved', where(f, e.line),
+                          ('start() is also conditioned by %s: an entry task failing it stays INITED and is never started' % ', '.join(x[1] for x in extra)) if extra
+                          else ('guarded by dependencies_solved() and the kind test only' if solved else 'start() is not guarded by dependencies_solved()'),
+                          key='R7|create_DAG_from_json|entry tasks started')
+        ctx.require(nst >= 1, 'R7', 'create_DAG_from_json: no call of Activity::start')
+    dl = [g for g in P.fns.values() if g['q'].endswith('create_DAG_from_DAX') and g.get('blocks')]
+    if len(dl) != 1:
+        ctx.unrecognised('R7', 'create_DAG_from_DAX: %d definitions' % len(dl))
+    else:
+        g = dl[0]
+        vg = A.view(g)
+        dom = _cg.dominators(vg)
+        root_start = [e for eid in range(len(g['elems'])) for e in vg.events_of(eid) if e.eid == eid and e.kind == 'call' and e.q.endswith('::start') and e.obj is not None
+                      and e.obj[0] == 'var' and e.obj[2] == 'root_task']
+        rets = [b['id'] for b in g['blocks'] if any(g['elems'][x]['x'].get('k') == 'Return' for x in b.get('e', [])) and b['id'] in dom]
+        ok7 = bool(root_start) and bool(rets) and all(any(g['elems'][e.eid]['b'] in dom[r] for e in root_start) for r in rets)
+        ctx.check(ok7, 'R7', 'create_DAG_from_DAX: root_task->start() on every path to the return', where(g, root_start[0].line if root_start else None),
+                  'every job without input file hangs below root_task: it is the only entry activity' if ok7 else 'the root task is not started on some path: nothing starts the workflow',
+                  key='R7|create_DAG_from_DAX|root started')
     ctx.assume('start dates, the DOT loader (not built here) and the remaining graph construction of the loaders (file nodes of DAX, transfer sources of JSON) are not decided')
     return EXPLANATION
 
